@@ -13,6 +13,8 @@ PROP = 'C07'
 FID = 'F-PY-PICKLEPATH'
 FID_STATE = 'F-PY-PICKLESTATE'
 FID_LOCALE = 'F-DSDL-LOCALE-DECODE'
+FID_SITE = 'F-PY-BUILTINS-SITE'
+SITE_NAMES = ('copyright', 'credits', 'exit', 'help', 'license', 'quit')
 FRAGMENT = os.path.join(core.VERIF, 'known_findings.d', 'C07.json')
 
 MANIFEST = dict(
@@ -56,7 +58,7 @@ FIVE_YEARS = 157766400
 
 # ---- random DSDL namespaces ---------------------------------------------------------------------------------------------
 ROOTS = ['nsa', 'zoo', 'regx', 'acme', 'm1']
-SUBS = ['sub', 'top', 'inner', 'aa', 'zz', 'b2', 'mid', 'u7', 'u07', 'u007', 'x10', 'x010', 'Abc', 'abc']   # u7/u07...: tie under natural sort
+SUBS = ['help', 'sub', 'top', 'inner', 'aa', 'zz', 'b2', 'mid', 'u7', 'u07', 'u007', 'x10', 'x010', 'Abc', 'abc']   # u7/u07...: tie under natural sort
 TIE_PARTNER = {'u7': 'u07', 'u07': 'u007', 'u007': 'u7', 'x10': 'x010', 'x010': 'x10', 'Abc': 'abc', 'abc': 'Abc'}
 SHORTS = ['T7', 'T07', 'V1x', 'V01x', 'Alpha', 'Beta', 'Gamma', 'Delta', 'Eps', 'Zeta', 'Eta', 'Theta', 'Iota', 'Kappa', 'A', 'Z9', 'Mu_x']
 PRIMS = ['uint8', 'int16', 'float32', 'bool', 'uint7', 'float64', 'uint8[3]', 'int32[<=4]', 'bool[5]', 'float16']
@@ -109,7 +111,7 @@ def gen_namespace(rng, size: int) -> dict:
         kind = rng.choice(['struct', 'struct', 'union', 'service', 'delimited'])
         pool = types + lookup_types
 
-        def fields(lo: int) -> list:
+        def fields(lo: int, prefix_ok: bool = True) -> list:
             fs = []
             for _ in range(rng.randrange(lo, lo + 4)):
                 if pool and rng.random() < 0.55:
@@ -120,9 +122,11 @@ def gen_namespace(rng, size: int) -> dict:
                     fs.append(('comp', t, rng.choice(['', '', '[2]', '[<=2]'])))
                 else:
                     fs.append(('prim', rng.choice(PRIMS)))
+            if prefix_ok and rng.random() < 0.15:
+                fs.append(('prim', 'uint8', rng.choice(['exit', 'quit', 'license', 'credits', 'copyright'])))
             return fs
         t = dict(ns=ns, short=short, major=major, minor=minor, kind=kind, doc=docs and rng.random() < 0.6, fields=fields(2 if kind == 'union' else 0),
-                 resp=fields(0) if kind == 'service' else [])
+                 resp=fields(0, False) if kind == 'service' else [])
         types.append(t)
     if not types:
         types.append(dict(ns=[root], short='Only', major=1, minor=0, kind='struct', fields=[('prim', 'uint8')], resp=[]))
@@ -136,6 +140,9 @@ def tname(t: dict) -> str:
 def render_fields(fs: list, prefix: str) -> typing.List[str]:
     out = []
     for i, f in enumerate(fs):
+        if f[0] == 'prim' and len(f) > 2:            # a field with a given name (names `site` puts into builtins)
+            out.append('%s %s' % (f[1], f[2]))
+            continue
         if f[0] == 'prim':
             ty = f[1]
             m = re.match(r'^(\w+)(\[.*\])$', ty)
@@ -193,6 +200,8 @@ def runs_audit_off() -> typing.List[dict]:
         dict(name='Rsub', hashseed='0', loc='A', cwd='sub:m', paths='rel', wave=1),
         # environment variables and locale: everything a process inherits besides PYTHONHASHSEED
         dict(name='Renv', hashseed='0', loc='A', cwd='loc', paths='rel', wave=1, env_extra=ENV_EXTRA),
+        # another way of starting the interpreter: no `site` module (as in a frozen nnvg): builtins lack help/exit/quit/...
+        dict(name='Rsite', hashseed='0', loc='A', cwd='loc', paths='rel', wave=1, py_flags=['-S']),
         # outputs at another absolute location, inputs unmoved
         dict(name='Rout', hashseed='0', loc='A', cwd='loc', paths='abs', wave=1, out='alt'),
         # another file system (tmpfs: readdir order = reverse creation order) with the input tree created in reverse order
@@ -300,6 +309,22 @@ WITNESS_ROOTS3_NS = dict(root='alpha', lookup=[_G, _G2, _B, _BU], types=[
     dict(ns=['alpha'], short='Plain', major=1, minor=0, kind='struct', fields=[('comp', _B, '')], resp=[]),
     dict(ns=['alpha', 'nested'], short='Get', major=1, minor=0, kind='service', fields=[('prim', 'uint8')], resp=[('comp', _BU, '[<=2]')])])
 
+WITNESS_SITE_NS = dict(root='ns', lookup=[], types=[
+    dict(ns=['ns', 'help'], short='A', major=1, minor=0, kind='struct', fields=[('prim', 'uint8', 'exit'), ('prim', 'uint8')], resp=[])])
+
+
+def site_trigger(case: dict, run: dict) -> bool:
+    """trigger of F-PY-BUILTINS-SITE: Python target, interpreter started without `site`, and a namespace component or field is named
+    like one of the six builtins `site` adds"""
+    if case['lang'] != 'py' or '-S' not in (run.get('py_flags') or []):
+        return False
+    words = set()
+    for rel, text in case['dsdl'].items():
+        words.update(rel.split('/')[:-1])
+        words.update(re.findall(r'\b[a-z_]+\b', text))
+    return bool(words & set(SITE_NAMES))
+
+
 WITNESS_LOCALE_NS = dict(root='ns', lookup=[], types=[
     dict(ns=['ns'], short='A', major=1, minor=0, kind='struct', doc=True, fields=[('prim', 'uint8')], resp=[])])
 
@@ -396,8 +421,12 @@ def cpath(comps: typing.Sequence[str]) -> str:
     return '[' + '; '.join(cs(x) for x in comps) + ']'
 
 
+STROP_PY = False      # set per case by coq_case: the Python target strops namespace components named like a builtin (help -> help_)
+
+
 def ckey(t: dict) -> str:
-    return '{| k_ns := %s; k_short := %s; k_major := %d; k_minor := %d |}' % (cpath(t['ns']), cs(t['short']), t['major'], t['minor'])
+    ns = [x + '_' if STROP_PY and x in SITE_NAMES else x for x in t['ns']]
+    return '{| k_ns := %s; k_short := %s; k_major := %d; k_minor := %d |}' % (cpath(ns), cs(t['short']), t['major'], t['minor'])
 
 
 def cbool(b: bool) -> str:
@@ -410,6 +439,8 @@ def model_paths(case: dict) -> typing.Tuple[typing.List[str], typing.List[str]]:
 
 
 def coq_case(i: int, case: dict, res: dict, pickle_live: bool, state_live: bool = False) -> typing.Tuple[str, typing.List[str]]:
+    global STROP_PY
+    STROP_PY = case['lang'] == 'py'
     L = LANG[case['lang']]
     ns = case['ns']
     r0 = res['runs']['R0']
@@ -548,6 +579,8 @@ def build_cases(chk: core.Check) -> typing.List[dict]:
     for lang in ('py', 'c'):
         cases.append(mk_case('w-roots3-%s' % lang, lang, [], WITNESS_ROOTS3_NS, False))
         cases[-1]['runs'] = [r for r in cases[-1]['runs'] if r['name'] in ('R0', 'Rloc', 'Rall', 'Rh1', 'Rcwd')]
+    cases.append(mk_case('w-site', 'py', [], WITNESS_SITE_NS, False))
+    cases[-1]['runs'] = [r for r in cases[-1]['runs'] if r['name'] in ('R0', 'Rsite', 'Rh1')]
     cases.append(mk_case('w-locale', 'c', [], WITNESS_LOCALE_NS, False))
     cases[-1]['runs'] = [r for r in cases[-1]['runs'] if r['name'] in ('R0', 'Renv', 'Rh1')]
     # corpus: F-HTML-NATSORT-TIE (fixed): sibling namespaces and types whose names tie under the natural-sort key
@@ -657,11 +690,20 @@ def main(chk: core.Check, replay: typing.Optional[str] = None) -> int:
     if locale_live and chk.is_known(FID_LOCALE):
         chk.report_known(FID_LOCALE, 'ns/A.1.0.dsdl with a non-ASCII comment: LC_ALL=C PYTHONUTF8=0 run fails in pydsdl')
     locale_quirk = locale_live and chk.is_known(FID_LOCALE)
+    site_live = False
+    wsite = next((c for c in cases if c['id'] == 'w-site'), None)
+    if wsite is not None:
+        sr2 = results[wsite['id']].get('runs', {})
+        if sr2.get('R0', {}).get('rc') == 0 and sr2.get('Rsite', {}).get('rc') == 0:
+            site_live = sr2['Rsite']['files'] != sr2['R0']['files']
+    if site_live and chk.is_known(FID_SITE):
+        chk.report_known(FID_SITE, 'ns/help/A.1.0.dsdl with a field `exit`: python -S writes ns/help/A_1_0.py with `exit`, python writes ns/help_/A_1_0.py with `exit_`')
+    site_quirk = site_live and chk.is_known(FID_SITE)
 
     stats = {'cases': len(cases), 'runs': 0, 'files_hashed': 0, 'pairs_compared': 0, 'file_pairs_compared': 0,
              'known_finding_instances': 0, 'audit_on_cases': 0, 'audit_on_file_pairs_differing': 0, 'audit_on_file_pairs_equal': 0,
              'model_checks': 0, 'by_lang': {}, 'with_lookup_deps': 0, 'with_three_roots': 0, 'with_cross_root_array_chain': 0, 'with_nested_ns': 0, 'with_service': 0, 'with_union': 0, 'with_user_templates': 0, 'with_two_config_files': 0, 'reused_output_dir_pairs': 0, 'with_natsort_ties': 0,
-             'types_total': 0, 'invalid_inputs': 0, 'known_state_instances': 0, 'known_locale_instances': 0, 'pairs_with_different_write_order': 0}
+             'types_total': 0, 'invalid_inputs': 0, 'known_state_instances': 0, 'known_locale_instances': 0, 'known_site_instances': 0, 'pairs_with_different_write_order': 0}
     violations: typing.List[typing.Tuple[dict, dict]] = []
     distinct = set()
     usable: typing.List[dict] = []
@@ -692,6 +734,12 @@ def main(chk: core.Check, replay: typing.Optional[str] = None) -> int:
             dropped = [x for x in c['runs'][1:] if locale_trigger(c, x) and runs.get(x['name'], {}).get('rc', 0) != 0]
             if dropped:
                 stats['known_locale_instances'] += len(dropped)
+                c['runs'] = [x for x in c['runs'] if x not in dropped]
+        if site_quirk and runs.get('R0', {}).get('rc') == 0:
+            dropped = [x for x in c['runs'][1:] if site_trigger(c, x) and runs.get(x['name'], {}).get('rc') == 0
+                       and runs[x['name']]['files'] != runs['R0']['files']]
+            if dropped:
+                stats['known_site_instances'] += len(dropped)
                 c['runs'] = [x for x in c['runs'] if x not in dropped]
         ok_runs = all(runs.get(x['name'], {}).get('rc') == 0 for x in c['runs'])
         if runs.get('R0', {}).get('rc', 0) != 0:
@@ -754,7 +802,8 @@ def main(chk: core.Check, replay: typing.Optional[str] = None) -> int:
         'distribution': stats,
         'known_finding_probe': {FID: {'reproduces': pickle_live, 'listed': chk.is_known(FID)},
                                 FID_STATE: {'reproduces': state_live, 'listed': chk.is_known(FID_STATE)},
-                                FID_LOCALE: {'reproduces': locale_live, 'listed': chk.is_known(FID_LOCALE)}},
+                                FID_LOCALE: {'reproduces': locale_live, 'listed': chk.is_known(FID_LOCALE)},
+                                FID_SITE: {'reproduces': site_live, 'listed': chk.is_known(FID_SITE)}},
     })
 
     if violations:
